@@ -258,6 +258,15 @@ def _po_step(case):
 CT_PRE = ("from dataclasses import dataclass\nfrom collections import namedtuple\nimport attrs\n\n\n@dataclass\nclass DC2:\n    a: int\n    b: int = 0\n\n\n"
           "NT2 = namedtuple('NT2', 'a,b')\n\n\n@attrs.define\nclass AT2:\n    a: int\n    b: int = 0\n\n\n"
           "@dataclass\nclass DCB:\n    a: int\n    b: int = 0\n\n\n@dataclass\nclass DCS2(DC2):\n    pass\n\n\n")
+# values whose == is not symmetric with the HasRepr stand-in that create writes for them: `Strict.__eq__` answers False for
+# every foreign type, so `stored == value` holds while `value == stored` does not; the snapshot is the left operand
+CT_PRE += ("from inline_snapshot import HasRepr\n\n\nclass Strict:\n    def __init__(self, n):\n        self.n = n\n\n    def __repr__(self):\n        return '<Strict %d>' % self.n\n\n"
+           "    def __eq__(self, other):\n        if not isinstance(other, Strict):\n            return False\n        return self.n == other.n\n\n\n"
+           "class Polite(Strict):\n    def __repr__(self):\n        return '<Polite %d>' % self.n\n\n"
+           "    def __eq__(self, other):\n        if not isinstance(other, Polite):\n            return NotImplemented\n        return self.n == other.n\n\n\n")
+AE_PREV = [("HasRepr(Strict, '<Strict 1>')", "Strict(%d)"), ("HasRepr(Polite, '<Polite 1>')", "Polite(%d)"), ("[HasRepr(Strict, '<Strict 1>'), 0]", "[Strict(%d), 0]"),
+           ("{'k': HasRepr(Strict, '<Strict 1>')}", "{'k': Strict(%d)}"), ("(0, [HasRepr(Polite, '<Polite 1>')])", "(0, [Polite(%d)])"),
+           ("DC2(a=HasRepr(Strict, '<Strict 1>'), b=2)", "DC2(a=Strict(%d), b=2)")]
 CT_PREV = ["DC2(a=1, b=2)", "DC2(1, 2)", "DC2(1, b=2)", "NT2(a=1, b=2)", "NT2(1, 2)", "AT2(a=1, b=2)", "AT2(1, 2)"]
 
 
@@ -270,6 +279,11 @@ def _ct_cases():
             for n in (1, 2):
                 for F in FS:
                     cases.append({"ct": True, "arg": prev, "obs": obs, "n": n, "F": F})
+    for prev, tmpl in AE_PREV:
+        for k in (1, 2):
+            for n in (1, 2):
+                for F in FS:
+                    cases.append({"ct": True, "ae": True, "arg": prev, "obs": tmpl % k, "n": n, "F": F})
     return cases
 
 
@@ -283,6 +297,8 @@ def _ct_step(case):
 
     arg, obs, F = case["arg"], case["obs"], set(case["F"])
     src = "from inline_snapshot import snapshot\n" + CT_PRE + "def test_0():\n    _r = []\n" + "    _r.append(%s == snapshot(%s))\n" % (obs, arg) * 1
+    if case.get("ae"):
+        src = src.replace("_r.append(%s == snapshot(%s))" % (obs, arg), "_r.append(snapshot(%s) == %s)" % (arg, obs))
     if case["n"] == 2:
         src = src.replace("    _r.append(", "    for _ in (1, 2):\n        _r.append(", 1)
     r = run_inline({"test_something.py": src}, sorted(F))
@@ -291,7 +307,7 @@ def _ct_step(case):
     sys.modules[mod.__name__] = mod
     exec(compile(CT_PRE, "<ct>", "exec"), mod.__dict__)
     equal = eval(arg, mod.__dict__) == eval(obs, mod.__dict__)
-    positional = "=" not in arg.split(",")[0]
+    positional = "=" not in arg.split(",")[0] and not case.get("ae")
     R = set() if equal else {"fix"}
 
     def V(what, detail, sig=None):
